@@ -779,7 +779,7 @@ pub fn value_group(name: &str) -> Option<&'static str> {
 }
 
 pub fn contract_post(kind: u8, unsafe_cfg: bool, r: &SpyRec) -> Result<(), String> {
-    let SpyRec::Post { fired, old_tail, new_tail, prefix_changed, .. } = r else { return Ok(()) };
+    let SpyRec::Post { fired, old_tail, new_tail, prefix_changed, delta_first, .. } = r else { return Ok(()) };
     if *prefix_changed {
         return Err("untouched-prefix: bytes before the just-emitted opcode were modified".into());
     }
@@ -793,7 +793,9 @@ pub fn contract_post(kind: u8, unsafe_cfg: bool, r: &SpyRec) -> Result<(), Strin
         return Err("reported-false-but-modified".into());
     }
     // old tail: exactly what the emission wrote; must start with a value-pushing opcode
-    let old_first = old_tail.first().and_then(|&b| lexer::lookup(b));
+    // the "just-emitted opcode" is the one the emission wrote (the snapshot's delta); with the same
+    // mutator registered twice the tail may already hold an earlier replacement
+    let old_first = delta_first.or(old_tail.first().copied()).and_then(lexer::lookup);
     let old_group = old_first.and_then(|o| value_group(o.name));
     let Some(old_group) = old_group else {
         return Err(format!(
